@@ -187,7 +187,10 @@ CLAIMED = {
         'all obligations closed under the global context (the Coq.Reals instance file depends on the standard real '
         'axioms sig_forall_dec, sig_not_dec, functional_extensionality_dep). Tie: all chains of length <= 4 x 4 Stokes kinds '
         'x broadcast angle arrays (k.pi/4 exact; Pythagorean generic angles at 1e-12 under x64), factories, same-object '
-        'patterns.',
+        'patterns; stored-angle ladder (angles k/2^j held exactly by the operand dtype, magnitudes 1e2..1e6 quick / 1e0..1e8 thorough, x64 on/off, '
+        'float64 Mueller reference at the STORED angle without a magnitude term in the tolerance; model fed libm cos/sin rounded to rationals); '
+        'mixed chains: every polarimetry operand and its lazy transpose / inverse next to pack / index / diagonal / reshape / ravel / move-axis '
+        'neighbours on both sides, before and after reduce().',
         'Floating-point trig modelled exactly; jnp broadcasting specified in Gallina with its laws proved; scan termination '
         'left to C07; harness-assigned identities.',
         'DESIGN.md section 4, C15',
